@@ -25,7 +25,7 @@ import numpy as np
 import torch
 from hypothesis import strategies as st
 
-from ..harness import Leg, Violation, check, impl
+from ..harness import Leg, Violation, check, impl, load_known
 from ..models.synapses import WD, SynapseModel, classify_bound, classify_time
 
 TDT = {"float32": torch.float32, "float64": torch.float64}
@@ -142,10 +142,14 @@ def _expect_query(case, model, quantity, selvals, w, nrec, stats):
     ob = case["sob"] if quantity == "spike" else case["cob"]
     bnd = len(model.bshape)
     out = np.empty(selvals.shape, dtype=object)
+    memo: dict = {}
     for idx in itertools.product(*(range(s) for s in selvals.shape)):
         eidx = idx[:bnd]
         t = float(selvals[idx])
-        b = classify_bound(t, delay, tol, w)
+        if t not in memo:
+            b_ = classify_bound(t, delay, tol, w)
+            memo[t] = (b_, classify_time(b_.t_eff, b_.t_eff_w, dt, tol, w))
+        b, tr_ = memo[t]
         acc = []
         decisive = not b.amb
         inrange = b.where == "in"
@@ -154,7 +158,7 @@ def _expect_query(case, model, quantity, selvals, w, nrec, stats):
             acc.append((float(ob), 0.0))
         skip = False
         if want_in:
-            tr = classify_time(b.t_eff, b.t_eff_w, dt, tol, w)
+            tr = tr_
             if tr.kmax > nrec - 1:
                 # an alternative of an ambiguous classification lies outside the record
                 skip = True
@@ -197,8 +201,7 @@ def _check_at(case, quantity, got, exp, selvals, f64, what):
     shape = tuple(selvals.shape)
     check(isinstance(got, torch.Tensor), f"at:{quantity}:type", lambda: f"{what}: got {type(got)}")
     check(tuple(got.shape) == shape, f"at:{quantity}:shape",
-          lambda: f"{what}: result shape {tuple(got.shape)} != selector shape {shape}",
-          info={"recordsz": case.get("_nrec"), "D": len(shape) - 1 - len(case["shape"])})
+          lambda: f"{what}: result shape {tuple(got.shape)} != selector shape {shape}")
     if quantity == "spike":
         check(got.dtype == torch.bool, "at:spike:dtype", lambda: f"{what}: dtype {got.dtype} is not bool")
     else:
@@ -268,7 +271,6 @@ def _run(case, f64):
         syns = [_build(case, False), _build(case, True)]
         nrec = syns[0].spike_.recordsz
         rdelay, rdt = syns[0].delay, syns[0].dt
-    case["_nrec"] = nrec
     check(rdelay == delay and rdt == dt, "ctor:params", lambda: f"delay {rdelay} dt {rdt} != configured {delay} {dt}")
     # the record must cover the supported delay (the size formula itself is C13's subject)
     check((nrec - 1) * dt >= delay * (1 - 1e-12), "ctor:recordsz",
@@ -328,15 +330,19 @@ def _run(case, f64):
             sel_t = torch.tensor(selw)
             exp = _expect_query(case, model, quantity, selw, w, nrec, stats)
             gots = []
+            qf64 = f64 and seldtype == "float64"  # accuracy of an interpolated read: the coarser dtype
             for syn in syns:
                 w2 = f"{what} {METHOD[quantity]}(shape {sshape}, {seldtype}) inplace={syn.inplace}"
                 try:
                     with impl(w2):
                         got = getattr(syn, METHOD[quantity])(sel_t.clone())
+                    _check_at(case, quantity, got, exp, selw, qf64, w2)
                 except Violation as v:
-                    v.info.update({"recordsz": nrec, "D": int(bool(dcols)) * dcols})
+                    if nrec == 1 and dcols:
+                        # one root cause (undelayed branch ignores the extra dimension D), many symptoms
+                        raise Violation("at:undelayed_extra_dim", f"[{v.kind}] {v.detail}",
+                                        {"recordsz": nrec, "D": dcols, "orig": v.kind}) from v
                     raise
-                _check_at(case, quantity, got, exp, selw, f64, w2)
                 gots.append(got)
             check(torch.equal(gots[0], gots[1]), "inplace:at",
                   lambda: f"{what}: in-place and out-of-place {METHOD[quantity]} results differ")
@@ -360,6 +366,9 @@ def _run(case, f64):
 
 
 # ---------------------------------------------------------------------------- generators
+
+KNOWN_UNDELAYED_D = "C04-undelayed-extra-dim"
+_FINDING_REGISTERED = any(f.get("id") == KNOWN_UNDELAYED_D for f in load_known().get("findings", []))
 
 _bits = st.one_of(st.just([0]), st.just([1]), st.lists(st.integers(0, 1), min_size=2, max_size=7))
 _raw = st.integers(0, 11)
@@ -391,8 +400,9 @@ def syn_case(draw, kind, tier="quick"):
     if kind == "doubleexp":
         case["tau_r"] = draw(st.sampled_from([0.5, 1.0, 1.7]))
         case["tau_d"] = case["tau_r"] + draw(st.sampled_from([0.5, 2.0, 8.0]))
-    # D columns on an undelayed synapse: see proposed known finding (excluded by construction in most cases)
-    allow_d0 = draw(st.integers(0, 15)) == 0
+    # D columns on an undelayed synapse (record size 1) hit a known finding: excluded by construction,
+    # searched in 1 case of 16 once the finding is registered (so other failures are still reported)
+    allow_d0 = _FINDING_REGISTERED and draw(st.integers(0, 15)) == 0
     quants = QUANT[kind]
 
     def step():
@@ -411,7 +421,7 @@ def syn_case(draw, kind, tier="quick"):
                 draw(st.sampled_from(["default", "default", "default", "float64", "float32"])), draw(st.integers(0, 7))]
 
     maxsteps = 25 if tier == "quick" else 40
-    nops = draw(st.integers(1, maxsteps))
+    nops = draw(st.integers(0, maxsteps))
     ops = []
     for _ in range(nops):
         r = draw(st.integers(0, 19))
@@ -421,7 +431,7 @@ def syn_case(draw, kind, tier="quick"):
             ops.append(["clear"])
         else:
             ops.append(query())
-    if draw(st.integers(0, 9)) < 8:
+    if draw(st.integers(0, 9)) >= 2:
         # construction: a filled record followed by reads of every kind
         pre = [step() for _ in range(draw(st.integers(2, 6)))]
         ops = pre + ops + [query(), query()]
